@@ -3,14 +3,28 @@
 use rspirv::lift::LiftContext;
 
 pub fn lift(rest: &str) -> String {
+    lift_with(rest, None)
+}
+
+/// `liftv <version word> <hexbytes>`: the loaded module's header version word is overwritten before lifting
+pub fn liftv(rest: &str) -> String {
+    let mut p = rest.split_whitespace();
+    let v: u32 = match p.next().and_then(|x| x.parse().ok()) { Some(v) => v, None => return "bad-request".to_string() };
+    lift_with(p.next().unwrap_or(""), Some(v))
+}
+
+fn lift_with(rest: &str, version: Option<u32>) -> String {
     let bytes = match crate::util::try_unhex(rest.trim()) {
         Some(b) => b,
         None => return "bad-request".to_string(),
     };
-    let m = match rspirv::dr::load_bytes(&bytes) {
+    let mut m = match rspirv::dr::load_bytes(&bytes) {
         Ok(m) => m,
         Err(_) => return "load-error".to_string(),
     };
+    if let (Some(v), Some(h)) = (version, m.header.as_mut()) {
+        h.version = v;
+    }
     match LiftContext::convert(&m) {
         Err(e) => format!("err {:?}", e),
         Ok(sr) => {
